@@ -457,12 +457,61 @@ def case_query_continental(mon: Monitor, rng: random.Random) -> None:
               key="tiles-missing" if not must <= got else "tiles-extra", cls="geometry|other-crs|continental", sig=hsig("qc", gcrs, t, qcrs, kindq, f), sample={**desc, "n_got": len(got)})
 
 
-CASES = {"query": case_query, "graph": case_graph, "graph-global": case_graph_global, "graph-drift": case_graph_drift, "query-continental": case_query_continental}
+def case_query_many_tiles(mon: Monitor, rng: random.Random) -> None:
+    """Thousands of tiles (a 10 m national grid cut into small chunks) and queries that are not polygons: a line across the grid, a closed ring, scattered points - and a
+    polygon for comparison.  Brute force over every tile with shapely; thin geometries have no area, so "required" means: the geometry runs through the tile's interior."""
+    import shapely
+    import shapely.geometry as sg
+    from odc.geo import geom
+    from odc.geo.geobox import GeoBox, GeoboxTiles
+
+    ty, tx = rng.choice([(70, 80), (56, 64), (40, 130)])
+    t = rng.choice([4, 5, 8])
+    r = rng.choice([10.0, 30.0])
+    A = Affine(r, 0, rng.randint(-50, 50) * r, 0, -r, rng.randint(-50, 50) * r)
+    fam = "north-up"
+    if rng.random() < 0.4:
+        A, fam = A * Affine.rotation(rng.choice([20, -35, 60])), "rotated"
+    gb = GeoBox((ty * t, tx * t), A, "EPSG:32633")
+    gbt = GeoboxTiles(gb, (t, t))
+    W, H = tx * t, ty * t
+    P = lambda fx, fy: tuple(A * (fx * W, fy * H))
+    kind = rng.choice(["line", "line", "ring", "multipoint", "polygon", "multiline"])
+    if kind == "line":
+        shp = sg.LineString([P(rng.uniform(0.02, 0.2), rng.uniform(0.05, 0.95)), P(rng.uniform(0.4, 0.6), rng.uniform(0.05, 0.95)), P(rng.uniform(0.8, 0.98), rng.uniform(0.05, 0.95))])
+    elif kind == "multiline":
+        shp = sg.MultiLineString([[P(0.05, 0.1), P(0.9, 0.2)], [P(0.1, 0.9), P(0.5, 0.4), P(0.95, 0.85)]])
+    elif kind == "ring":
+        shp = sg.LinearRing([P(0.1, 0.1), P(0.9, 0.15), P(0.85, 0.9), P(0.15, 0.8)])
+    elif kind == "multipoint":
+        shp = sg.MultiPoint([P(rng.uniform(0.02, 0.98), rng.uniform(0.02, 0.98)) for _ in range(rng.randint(3, 12))])
+    else:
+        shp = sg.Polygon([P(0.1, 0.1), P(0.9, 0.15), P(0.85, 0.9), P(0.5, 0.5), P(0.15, 0.8)])
+    desc = {"gbox": gen.gbox_desc(gb), "tiles": [ty, tx], "tile_px": t, "family": fam, "query_kind": kind, "query": shp.wkt[:200]}
+    res, e = call(lambda: list(gbt.tiles(geom.Geometry(shp, gb.crs))))
+    if e is not None:
+        return mon.fail("GeoboxTiles.tiles", {**desc, "exc": e}, key="tiles-raises", cls=f"many-tiles|{kind}")
+    got = {tuple(i) for i in res}
+    # every tile as a shapely polygon (vectorised), shrunk / grown by a hundredth of a pixel for the must / may sets
+    iy, ix = np.meshgrid(np.arange(ty), np.arange(tx), indexing="ij")
+    def boxes(eps):
+        c = np.stack([np.stack([ix * t + eps, iy * t + eps], -1), np.stack([(ix + 1) * t - eps, iy * t + eps], -1), np.stack([(ix + 1) * t - eps, (iy + 1) * t - eps], -1), np.stack([ix * t + eps, (iy + 1) * t - eps], -1)], axis=2)
+        w = np.stack([A.a * c[..., 0] + A.b * c[..., 1] + A.c, A.d * c[..., 0] + A.e * c[..., 1] + A.f], axis=-1)
+        return shapely.polygons(w.reshape(-1, 4, 2))
+    must = {(int(a), int(b)) for a, b in zip(iy.ravel()[shapely.intersects(boxes(0.01), shp)], ix.ravel()[shapely.intersects(boxes(0.01), shp)])}
+    may_mask = shapely.intersects(boxes(-0.01), shp)
+    may = {(int(a), int(b)) for a, b in zip(iy.ravel()[may_mask], ix.ravel()[may_mask])}
+    ok = must <= got <= may
+    mon.check(ok, "GeoboxTiles.tiles", lambda: {**desc, "n_got": len(got), "n_required": len(must), "missing": sorted(must - got)[:12], "extra": sorted(got - may)[:12]}, key="tiles-missing" if not must <= got else "tiles-extra",
+              cls=f"many-tiles|{kind}", sig=hsig("MT", repr(desc)))
+
+
+CASES = {"query-many-tiles": case_query_many_tiles, "query": case_query, "graph": case_graph, "graph-global": case_graph_global, "graph-drift": case_graph_drift, "query-continental": case_query_continental}
 
 
 def run(mon: Monitor, tier: str, seed: int, shard: int, nshards: int) -> None:
     rng = random.Random(seed * 1000 + shard + 12)
-    counts = {"query": 900, "graph": 500, "graph-global": 60, "graph-drift": 12, "query-continental": 16} if tier == "quick" else {"query": 15000, "graph": 8000, "graph-global": 1200, "graph-drift": 200, "query-continental": 300}
+    counts = {"query-many-tiles": 10, "query": 900, "graph": 500, "graph-global": 60, "graph-drift": 12, "query-continental": 16} if tier == "quick" else {"query-many-tiles": 150, "query": 15000, "graph": 8000, "graph-global": 1200, "graph-drift": 200, "query-continental": 300}
     for kind, n in counts.items():
         for _ in range(n):
             rs = rng.getrandbits(48)
